@@ -256,34 +256,41 @@ fn ep_c02(s: &mut S, r: &mut Rng, maxc: usize, maxr: usize) {
     // the histories the property names: saved cursor outside a shrunken screen, resize while the
     // alternate screen is showing and switching back afterwards, printing below the scroll region
     if r.chance(1, 2) {
-        let (c, rr) = s.vt(slot).size();
-        let t = far_cursor(r, c, rr);
-        s.feed_str(slot, &t, true);
-        if r.chance(1, 2) {
-            let t = overflow_print(r, c);
-            s.feed_str(slot, &t, true);
-        }
-        let t = gen::save(r);
-        s.feed_str(slot, &t, true);
-        let t = if r.chance(1, 4) { gen::leave_alt(r) } else { gen::enter_alt(r) };
-        s.feed_str(slot, &t, true);
-        if r.chance(1, 2) {
-            let t = far_cursor(r, c, rr);
-            s.feed_str(slot, &t, true);
-            let t = gen::save(r);
-            s.feed_str(slot, &t, true);
-        }
-        let (nc, nr) = (r.range(1, c.max(2)), r.range(1, rr.max(2)));
-        s.resize(slot, nc, nr, true);
-        let k = r.range(0, 3);
-        tokens(s, r, slot, &wt, k, maxc, maxr, (1, 6));
-        if s.alive(slot) {
-            let t = if r.chance(1, 2) { gen::leave_alt(r) } else { gen::enter_alt(r) };
-            s.feed_str(slot, &t, true);
-            let t = gen::restore(r);
-            s.feed_str(slot, &t, true);
-            let t = overflow_print(r, nc);
-            s.feed_str(slot, &t, true);
+        // a random walk over {far cursor, save, switch screen, shrink, restore + print}
+        let steps = r.range(4, 9);
+        for _ in 0..steps {
+            if !s.alive(slot) {
+                break;
+            }
+            let (c, rr) = s.vt(slot).size();
+            match r.n(10) {
+                0 | 1 => {
+                    let t = far_cursor(r, c, rr);
+                    s.feed_str(slot, &t, true);
+                    if r.chance(1, 3) {
+                        let t = overflow_print(r, c);
+                        s.feed_str(slot, &t, true);
+                    }
+                }
+                2 | 3 => {
+                    let t = gen::save(r);
+                    s.feed_str(slot, &t, true);
+                }
+                4 | 5 => {
+                    let t = if r.chance(1, 2) { gen::leave_alt(r) } else { gen::enter_alt(r) };
+                    s.feed_str(slot, &t, true);
+                }
+                6 | 7 => {
+                    let (nc, nr) = if r.chance(3, 4) { (r.range(1, c.max(2)), r.range(1, rr.max(2))) } else { (r.range(1, maxc + 2), r.range(1, maxr + 2)) };
+                    s.resize(slot, nc, nr, true);
+                }
+                _ => {
+                    let t = gen::restore(r);
+                    s.feed_str(slot, &t, true);
+                    let t = overflow_print(r, c);
+                    s.feed_str(slot, &t, true);
+                }
+            }
         }
     }
     let n = r.range(5, 25);
